@@ -46,14 +46,14 @@ type Fate struct {
 	// ok | perm (permanent error) | exhaust (throttle delay beyond max_elapsed_time:
 	// "no more retries left", a final non-shutdown verdict without any sleeping) |
 	// flaky (K transient failures with the normal ms back-off, then success) |
-	// park (transient failure asking for a 8-12 s wait, every time)
+	// park (transient failure asking for a 1-2 h wait, every time)
 	Kind       string
 	K          int
 	ThrottleUS int64
 	Wrap       int
 }
 
-const exhaustThrottle = 120 * time.Second // > the 60 s budget used whenever a fate is "exhaust"
+const exhaustThrottle = 48 * time.Hour // > the 24 h budget used whenever a fate is "exhaust"
 
 var cS = vt.New("C05", "shutdown-persist-split")
 
@@ -71,7 +71,7 @@ func genS(t *rapid.T) SScript {
 	}
 	s.Backoff = genBackoff(t)
 	if s.Backoff.MaxElapsedMS != 0 {
-		s.Backoff.MaxElapsedMS = 60000
+		s.Backoff.MaxElapsedMS = farMS
 	}
 	if rapid.IntRange(0, 3).Draw(t, "timeout?") == 0 {
 		s.TimeoutMS = rapid.IntRange(5, 40).Draw(t, "timeout_ms")
@@ -98,7 +98,7 @@ func genS(t *rapid.T) SScript {
 		case "flaky":
 			f.K = rapid.IntRange(1, 2).Draw(t, "k")
 		case "park":
-			f.ThrottleUS = int64(rapid.IntRange(8_000_000, 12_000_000).Draw(t, "long_throttle_us"))
+			f.ThrottleUS = int64(rapid.IntRange(3_600_000_000, 7_200_000_000).Draw(t, "long_throttle_us"))
 		}
 		s.Fates = append(s.Fates, f)
 	}
@@ -263,7 +263,7 @@ func newSplit(s *SScript, w *splitWorld) (*xh.Exporter, *vt.Finding) {
 
 func runS(s SScript) (nontrivial bool, key string, f *vt.Finding) {
 	key = scriptKey(s)
-	cS.HangGuard(90*time.Second, s, "hang/shutdown-persist-split", func() { nontrivial, f = runSInner(&s) })
+	cS.HangGuard(150*time.Second, s, "hang/shutdown-persist-split", func() { nontrivial, f = runSInner(&s) })
 	return nontrivial, key, f
 }
 
@@ -407,7 +407,7 @@ func runSInner(s *SScript) (bool, *vt.Finding) {
 		return out
 	}
 	if len(pending) > 0 {
-		deadline := time.Now().Add(10 * time.Second)
+		deadline := time.Now().Add(30 * time.Second)
 		for len(missing()) > 0 && time.Now().Before(deadline) {
 			time.Sleep(500 * time.Microsecond)
 		}
